@@ -39,7 +39,7 @@ def main(tier: str, seed: int, replay: str | None = None) -> int:
             ('drained_histories', 10), ('rejected_input', 10),
             ('copy_alias_probe', 1), ('model_valid', 100),
             ('effective:fold', 5), ('effective:pop_qudit', 1),
-            ('effective:renumber_qudits', 1), ('effective:straighten', 1),
+            ('effective:renumber_qudits', 1), ('noop:straighten', 1),
         ],
     )
 
